@@ -2,7 +2,7 @@
    prints, and the comparison of what the implementation produced with the model. *)
 From Coq Require Import List NArith ZArith Bool QArith Qcanon.
 From Okv Require Import Base.Dec Model.ImpConfig Model.ImpExtract Model.ImpSingleEntry Model.ImpCsv
-     Run.ImpPattern.
+     Model.ImpBook Run.ImpPattern.
 Import ListNotations.
 
 (* ---- constructors ---- *)
@@ -110,9 +110,6 @@ Section SortBy.
     match l with [] => [x] | y :: r => if (key x <=? key y)%N then x :: l else y :: ins x r end.
   Definition sort_by (l : list A) : list A := fold_right ins [] l.
 End SortBy.
-
-(* an injective code of a byte string *)
-Definition str_code (s : str) : N := fold_left (fun a c => a * 257 + c + 1)%N s 0%N.
 
 Definition tkey_eqb (a b : tkey) : bool :=
   match a, b with
